@@ -36,6 +36,20 @@ receiver channel joined by two network tasks that carry DATA/EXTENDED_DATA/EOF o
 the receiver's shutdown_write() / the sender's shutdown_read() at a scheduled moment; one sender task or two (stdout || stderr,
 class "two senders parked on the window at once"); e4pup: optionally the receiver shuts its write side down (before or as a task). Verdicts are exact: deadlock = the scheduler finds no runnable task while the sender /
 peer still has data (no timeouts, no re-runs).
+
+Round 3 dimensions.
+Re-key during the transfer.  pair: renegotiate_keys() on the receiving or the sending end's transport at the start / after a third of
+the bytes (real key exchange: user messages - data, window adjusts, EOF - wait at the transport's gate meanwhile).  e4pair: the fake
+transports get that gate (GatedTransport: `_send_user_message` parks every caller but the side's own transport thread while an
+exchange runs; only the transport thread re-opens it, after handling in order everything the peer had in flight) and 0-3 exchanges
+started by either end at generated fractions of the transfer, on a "fast" link (network tasks scheduled like any other) or a "slow" one
+(each message reaches the receiving side only after all other tasks have come to rest).  A reader that meets the closed gate with its
+WINDOW_ADJUST must not hold up the transport thread: deadlock verdict as before, bucket e4-deadlock:during-rekey.
+Peer receivers with their own crediting policy ("e4lwm"): the tested Channel sends to a receiver that reads everything at once and
+tops the window up by `grant` whenever initial + adjusts - bytes received <= `low` (low-water mark 0..1000; RFC 4254 leaves the moment
+to the receiver); 1-2 tasks make histories of up to 90 blocking send / send_stderr / sendall / sendall_stderr calls each on the one
+channel object (small sizes: many separate messages).  The sender has to use every byte it was granted: a caller parked on the
+window while the peer's books show window left can never be woken (the peer waits for the window to be used) - exact deadlock verdict.
 """
 import hashlib
 from collections import Counter
@@ -60,7 +74,12 @@ RULE = (
     "concurrent sender threads on the channel; the same dimensions in the E4 families e4pair/e4pup (exact deadlock verdicts); pup (+ receiver "
     "shutdown_write before message 0/1/3): role x W x P x sequence of DATA / EXTENDED_DATA(type 0..5) messages totalling up to 4W "
     "sent by a window-obeying puppet, application drains after each; non-trivial = pair: total > W (the sender had to wait for "
-    "credit); pup: bytes of discarded extended types > W/10 or total > W; distinct by the whole case"
+    "credit); pup: bytes of discarded extended types > W/10 or total > W; distinct by the whole case. Re-key during the transfer: pair x "
+    "renegotiate_keys by the receiving end (at start / after 1/3) or the sending end; e4pair x 0-3 exchanges (either end, at 0..0.9 of the bytes) "
+    "through a gated fake transport (user messages park while an exchange runs, only the transport task re-opens the gate) x fast/slow link. "
+    "e4lwm: sender window {0,1,100,1000,4096,32768} x max packet x peer receiver crediting by low-water mark {0,1,3,4,5,64,1000} with grants "
+    "{64,100,1000,4096,32768} x 1-2 tasks with histories of 1-90 blocking send/send_stderr/sendall/sendall_stderr calls (1..5000 bytes); "
+    "non-trivial = offered > initial window"
 )
 
 TO = 20.0
@@ -128,8 +147,9 @@ def plan_chunks(case):
     return out
 
 
-def pair_once(case):
-    """Returns (verdict, detail): verdict in ok / stuck / mismatch / sender-error."""
+def pair_once(case, info=None):
+    """Returns (verdict, detail): verdict in ok / stuck / mismatch / sender-error.  info (dict): what happened in this run."""
+    info = {} if info is None else info
     W, P = case["window"], case["maxpkt"]
     d = case["dir"]
     if d == "s2c":
@@ -211,10 +231,27 @@ def pair_once(case):
         last = (-1, -1, -1)
         last_t = time.time()
         verdict = None
+        # re-key during the transfer: renegotiate_keys() on the sending or the receiving end's transport at the start / once a third of
+        # the bytes has been sent (user messages - data, window adjusts - are held at the transport's gate while the exchange runs)
+        rekey = case.get("rekey")
+        rk = {"th": None}
+
+        def do_rekey(t):
+            try:
+                t.renegotiate_keys()
+                res["rekey"] = "done"
+            except Exception as e:
+                res["rekey"] = "error: %r" % (e,)
+
         while True:
-            if not any(t.is_alive() for t in threads):
+            if not any(t.is_alive() for t in threads) and not (rk["th"] is not None and rk["th"].is_alive()):
                 break
             cur = (st_["tx"], st_["nout"], st_["nerr"])
+            if rekey and rk["th"] is None and (rekey.endswith(":start") or (cur[0] >= total // 3 and any(t.is_alive() for t in threads))):
+                side = (ts if d == "s2c" else tc) if rekey.startswith("snd") else (tc if d == "s2c" else ts)
+                rk["th"] = threading.Thread(target=do_rekey, args=(side,), daemon=True)
+                rk["th"].start()
+                info["rekey-started"] = True
             if not combined and cur[1] + cur[2] >= mid_at:
                 rchan.set_combine_stderr(True)
                 combined = True
@@ -268,9 +305,13 @@ def pair_once(case):
                 st_[key].append(b)
         return judge_streams(combine, chunks, data, b"".join(st_["out"]), b"".join(st_["err"]), ordered=nsend == 1)
     finally:
+        info["rekey"] = locals().get("res", {}).get("rekey")
         peers.shutdown(tc, ts)
         for t in threads:
             t.join(TO)
+        th = locals().get("rk", {}).get("th")
+        if th is not None:
+            th.join(TO)
 
 
 def judge_streams(combine, chunks, data, out, err, ordered=True):
@@ -330,8 +371,14 @@ def run_pair(ctx, case, state):
     if state.get("stuck_reported") and not ctx.replaying:
         ctx.inconc("pair:skipped-after-stuck-verdict")
         return
+    info = {}
+    verdict, detail = pair_once(case, info)
+    if case.get("rekey"):
+        classes.append("pair:rekey-by-%s:%s" % ("sending-end" if case["rekey"].startswith("snd") else "receiving-end", "during-the-transfer" if info.get("rekey-started") else "not-started(transfer-over-first)"))
     ctx.case(case, nontrivial, classes)
-    verdict, detail = pair_once(case)
+    if info.get("rekey") and info["rekey"] != "done":
+        ctx.inconc("pair:renegotiate_keys-raised")
+        ctx.note("last_rekey_error", str(info["rekey"])[:500])
     if verdict == "ok":
         return
     if verdict == "stuck":
@@ -349,6 +396,8 @@ def run_pair(ctx, case, state):
         else:
             state["stuck_reported"] = True
             how = "" if (case.get("half", "none") == "none" and case.get("senders", 1) == 1) else ":half-close=%s:senders=%d" % (case.get("half", "none").split(":")[0], case.get("senders", 1))
+            if case.get("rekey"):
+                how += ":rekey"
             ctx.violation("transfer-completes", "stuck:%s:%s%s" % (case["dir"], "total>W" if nontrivial else "total<=W", how), case, " || ".join(details)[:3800])
             return
     ctx.violation("transfer-completes" if verdict in ("sender-error", "reader-error") else "data-intact", "%s:%s" % (verdict, detail.split(":")[0][:40]), case, detail)
@@ -619,12 +668,57 @@ def run_e4pup(ctx, case):
         ctx.violation("data-intact", "e4pup:consumed-differs", case, "kept-type bytes %d, read %r" % (st_["kept"], got))
 
 
+class GatedTransport(CB.FakeTransport):
+    """FakeTransport plus the user-message gate of Transport (`clear_to_send`): while a key exchange is running on this side,
+    `_send_user_message` parks every caller except the side's own transport thread, whose messages are held back and go out
+    when the exchange ends (Transport._send_or_defer).  Only the transport thread re-opens the gate - after it has handled, in
+    order, everything the peer had sent before the peer's part of the exchange."""
+
+    def __init__(self, sched, transport_task):
+        CB.FakeTransport.__init__(self, sched)
+        self.transport_task = transport_task
+        self.gated = False
+        self.deferred = []
+        self.gate_waits = 0  # callers that found the gate closed
+        self.deferred_total = 0
+        self.exchanges = 0
+
+    def _send_user_message(self, m):
+        if self.gated:
+            if self.sched.current_name() == self.transport_task:
+                self.deferred.append(m)
+                self.deferred_total += 1
+                return
+            self.gate_waits += 1
+            self.sched.block_until(lambda: not self.gated, ("send", "key-exchange-in-progress"))
+        CB.FakeTransport._send_user_message(self, m)
+
+    def marker(self, kind):
+        """A key-exchange message of this side (transport level: not subject to the gate)."""
+        self.wire.append({"type": kind, "chan": None, "task": self.sched.current_name(), "seq": len(self.wire)})
+
+    def close_gate(self):
+        self.gated = True
+        self.exchanges += 1
+
+    def open_gate(self):
+        self.gated = False
+        held, self.deferred = self.deferred, []
+        for m in held:
+            CB.FakeTransport._send_user_message(self, m)
+
+
 def run_e4pair(ctx, case):
     """Sender channel A and receiver channel B, each on a fake transport; two "network" tasks carry A's
-    messages to B and B's WINDOW_ADJUSTs to A through the real handlers."""
+    messages to B and B's WINDOW_ADJUSTs to A through the real handlers.  The network task that delivers to a side IS that
+    side's transport thread.  Optional re-keys (case["rekeys"] = [[side, fraction]]): once `fraction` of the messages' bytes were
+    carried, side X closes its gate and puts KEXINIT on its wire; the peer's transport thread meets it behind everything X sent
+    before, closes the peer's gate and answers (KEXREPLY); X's transport thread meets the answer behind everything the peer had
+    in flight, sends NEWKEYS and opens X's gate; the peer's transport thread opens the peer's gate at NEWKEYS.  One exchange at a
+    time."""
     W, P = case["window"], case["maxpkt"]
     sch = _sched(case, 400000)
-    fa, fb = CB.FakeTransport(sch), CB.FakeTransport(sch)
+    fa, fb = GatedTransport(sch, "net-ba"), GatedTransport(sch, "net-ab")
     A = CB.make_channel(sch, fa, chanid=1, remote_chanid=2, out_window=W, out_max_packet=P, name="A")
     B = CB.make_channel(sch, fb, chanid=2, remote_chanid=1, in_window=W, in_max_packet=P, name="B")
     chunks = plan_chunks(case)
@@ -634,7 +728,8 @@ def run_e4pair(ctx, case):
     combine = case["combine"]
     if combine == "start":
         B.set_combine_stderr(True)
-    st_ = {"sender": False, "out": [], "err": [], "eof": 0, "ab": 0}
+    rekeys = [tuple(r) for r in case.get("rekeys", [])]
+    st_ = {"sender": False, "out": [], "err": [], "eof": 0, "ab": 0, "carried": 0, "kex": None, "rk_left": len(rekeys), "gated_adjust": 0}
     half = case.get("half", "none")
     nsend = case.get("senders", 1)
     if half == "rcv-shutdown-write:start":
@@ -643,6 +738,31 @@ def run_e4pair(ctx, case):
         A.shutdown_read()
     groups = [chunks] if nsend == 1 else [[c for c in chunks if c[0] == 0], [c for c in chunks if c[0] == 1]]
     left = [len(groups)]
+    side = {"a": fa, "b": fb}
+
+    def all_over():
+        return st_["sender"] and st_["eof"] >= 2 and st_["rk_left"] == 0 and st_["kex"] is None
+
+    def kex_step(me, peer, e):
+        """`me`'s transport thread meets a key-exchange message of `peer` (both are GatedTransports)."""
+        if e["type"] == "KEXINIT":
+            me.close_gate()
+            me.marker("KEXREPLY")
+        elif e["type"] == "KEXREPLY":
+            me.marker("NEWKEYS")
+            me.open_gate()
+        elif e["type"] == "NEWKEYS":
+            me.open_gate()
+            st_["kex"] = None
+
+    def rekeyer():
+        for who, frac in rekeys:
+            want = int(case["total"] * frac)
+            sch.block_until(lambda: st_["kex"] is None and (st_["carried"] >= want or st_["sender"]), ("rekey", "waiting-for-its-moment"))
+            st_["kex"] = who
+            side[who].close_gate()
+            side[who].marker("KEXINIT")
+            st_["rk_left"] -= 1
 
     def sender(gi):
         def body():
@@ -658,27 +778,40 @@ def run_e4pair(ctx, case):
 
         return body
 
+    slow = case.get("link", "fast") == "slow"
+
     def net_ab():
         i = 0
         while True:
+            if slow:
+                # slow link: the next message reaches the receiving side only after every other task has come to rest
+                # (readers have taken what was there, the sender has run into the window / the gate)
+                sch.let_others_run("slow-link")
             if len(fa.wire) <= i:
-                sch.block_until(lambda: len(fa.wire) > i, ("net-ab", "nothing-to-carry"))
+                sch.block_until(lambda: len(fa.wire) > i or all_over(), ("net-ab", "nothing-to-carry"))
+                if len(fa.wire) <= i:
+                    return
             e = fa.wire[i]
             i += 1
             st_["ab"] = i
             if e["type"] == "DATA":
+                st_["carried"] += len(e["data"])
                 fb.deliver(CB.MSG_CHANNEL_DATA, 2, e["data"])
             elif e["type"] == "EXTENDED_DATA":
+                st_["carried"] += len(e["data"])
                 fb.deliver(CB.MSG_CHANNEL_EXTENDED_DATA, 2, e["code"], e["data"])
             elif e["type"] == "EOF":
                 fb.deliver(CB.MSG_CHANNEL_EOF, 2)
-                return
+                if not rekeys:
+                    return
+            elif e["chan"] is None:
+                kex_step(fb, fa, e)
 
     def net_ba():
         j = 0
         while True:
             if len(fb.wire) <= j:
-                sch.block_until(lambda: len(fb.wire) > j or st_["eof"] >= 2, ("net-ba", "nothing-to-carry"))
+                sch.block_until(lambda: len(fb.wire) > j or (st_["eof"] >= 2 and (not rekeys or all_over())), ("net-ba", "nothing-to-carry"))
                 if len(fb.wire) <= j:
                     return
             e = fb.wire[j]
@@ -687,6 +820,8 @@ def run_e4pair(ctx, case):
                 fa.deliver(CB.MSG_CHANNEL_WINDOW_ADJUST, 1, e["n"])
             elif e["type"] == "EOF":
                 fa.deliver(CB.MSG_CHANNEL_EOF, 1)  # the receiver half-closed its own direction
+            elif e["chan"] is None:
+                kex_step(fa, fb, e)
 
     def reader(key, f, sizes):
         def body():
@@ -713,6 +848,8 @@ def run_e4pair(ctx, case):
         sch.spawn("half-closer", lambda: B.shutdown_write())
     elif half == "snd-shutdown-read:mid":
         sch.spawn("half-closer", lambda: A.shutdown_read())
+    if rekeys:
+        sch.spawn("rekeyer", rekeyer)
     with S.patch_time(sch, *CB.chan_time_modules()):
         res = sch.run()
     for name, info in res.tasks.items():
@@ -725,18 +862,24 @@ def run_e4pair(ctx, case):
         nontrivial,
         ["e4pair", "e4pair:combine=" + combine, "e4pair:outcome=" + str(res.outcome), "e4pair:half-close=" + half, "e4pair:senders=%d" % nsend]
         + (["e4pair:total>W"] if nontrivial else [])
-        + (["e4pair:two-senders-parked-on-the-window-at-once"] if both_parked else []),
+        + (["e4pair:two-senders-parked-on-the-window-at-once"] if both_parked else [])
+        + ["e4pair:rekeys=%d" % len(rekeys), "e4pair:link=" + case.get("link", "fast")]
+        + (["e4pair:sender-met-the-closed-gate-during-a-rekey"] if fa.gate_waits else [])
+        + (["e4pair:receiver-met-the-closed-gate-during-a-rekey(window-adjust-held)"] if fb.gate_waits else [])
+        + (["e4pair:transport-thread-message-deferred-during-a-rekey"] if fa.deferred_total or fb.deferred_total else []),
     )
     if res.outcome == "budget":
         ctx.inconc("e4pair:step-budget")
         return
     if res.outcome != "ok":
+        in_kex = st_["kex"] is not None or fa.gated or fb.gated
+        how = "" if (half == "none" and nsend == 1) else ":half-close=%s:senders=%d" % (half.split(":")[0], nsend)
         ctx.violation(
             "transfer-completes",
-            "e4-deadlock:%s%s" % ("sender-blocked" if not st_["sender"] else "after-sender-finished", "" if (half == "none" and nsend == 1) else ":half-close=%s:senders=%d" % (half.split(":")[0], nsend)),
+            ("e4-deadlock:during-rekey:%s" % ("sender-blocked" if not st_["sender"] else "after-sender-finished")) if in_kex else "e4-deadlock:%s%s" % ("sender-blocked" if not st_["sender"] else "after-sender-finished", how),
             case,
-            "no task can run: sender finished=%s, messages carried A->B %d of %d, read stdout=%d stderr=%d; sender channel %r; receiver channel %r; waits %r"
-            % (st_["sender"], st_["ab"], len(fa.wire), sum(map(len, st_["out"])), sum(map(len, st_["err"])), counters(A), counters(B), res.waits),
+            "no task can run: sender finished=%s, messages carried A->B %d of %d, read stdout=%d stderr=%d; key exchange in progress=%s (gates closed: sender side %s, receiver side %s); sender channel %r; receiver channel %r; waits %r"
+            % (st_["sender"], st_["ab"], len(fa.wire), sum(map(len, st_["out"])), sum(map(len, st_["err"])), st_["kex"], fa.gated, fb.gated, counters(A), counters(B), res.waits),
         )
         return
     # data moved by the combiner after the stdout reader met EOF
@@ -755,12 +898,117 @@ def run_e4pair(ctx, case):
         ctx.violation("data-intact", "e4pair:%s" % detail.split(":")[0][:40], case, detail)
 
 
+def run_e4lwm(ctx, case):
+    """The tested Channel SENDS; the peer is a receiver whose application reads everything at once and which credits by a
+    low-water-mark rule (RFC 4254 leaves the moment of a WINDOW_ADJUST to the receiver): whenever the window it has granted and
+    not yet seen used (initial + adjusts - data bytes received) is <= `low`, it grants `grant` more bytes.  1-2 application
+    tasks make a (long) history of blocking send / send_stderr / sendall / sendall_stderr calls on the one channel object.
+    Everything the calls accepted has to reach the wire and every call has to return: deadlock (no task can run) while a caller
+    is parked on the window although the peer's books show window left = the sender's view of the peer's window has drifted from
+    what the peer granted."""
+    W, P, low, grant = case["window"], case["maxpkt"], case["low"], case["grant"]
+    sch = _sched(case, 300000)
+    ft = CB.FakeTransport(sch)
+    chan = CB.make_channel(sch, ft, chanid=1, remote_chanid=7, out_window=W, out_max_packet=P)
+    apps = [[tuple(o) for o in ops] for ops in case["apps"]]
+    payload = stream_bytes(0, 1 << 16)
+    st_ = {"granted": 0, "finished": 0, "accepted": 0, "seen": 0, "wire_bytes": 0, "ext_msgs": 0, "grants": 0, "calls": 0}
+
+    def used():
+        # data bytes the peer has received so far (incremental scan of the wire)
+        while st_["seen"] < len(ft.wire):
+            e = ft.wire[st_["seen"]]
+            st_["seen"] += 1
+            if e["type"] in ("DATA", "EXTENDED_DATA"):
+                st_["wire_bytes"] += len(e["data"])
+                if e["type"] == "EXTENDED_DATA":
+                    st_["ext_msgs"] += 1
+        return st_["wire_bytes"]
+
+    def peer_window():
+        return W + st_["granted"] - used()
+
+    def app(ops):
+        def body():
+            for kind, size in ops:
+                n = getattr(chan, kind)(payload[:size])
+                st_["accepted"] += size if kind.startswith("sendall") else n
+                st_["calls"] += 1
+            st_["finished"] += 1
+
+        return body
+
+    def peer():
+        while True:
+            sch.block_until(lambda: st_["finished"] == len(apps) or peer_window() <= low, ("peer", "granted-window-above-low-water-mark"))
+            if st_["finished"] == len(apps):
+                return
+            st_["granted"] += grant
+            st_["grants"] += 1
+            ft.deliver(CB.MSG_CHANNEL_WINDOW_ADJUST, 1, grant)
+
+    for i, ops in enumerate(apps):
+        sch.spawn("app%d" % i, app(ops))
+    sch.spawn("peer", peer)
+    with S.patch_time(sch, *CB.chan_time_modules()):
+        res = sch.run()
+    for name, info in res.tasks.items():
+        if info.exc is not None:
+            raise HarnessError("C20 e4lwm: task %s raised %s" % (name, info.tb))
+    offered = sum(size for ops in apps for _, size in ops)
+    n_calls = sum(len(ops) for ops in apps)
+    n_ext_calls = sum(1 for ops in apps for k, _ in ops if k.endswith("stderr"))
+    used()
+    ctx.case(
+        case,
+        offered > W,
+        ["e4lwm", "e4lwm:outcome=" + str(res.outcome), "e4lwm:apps=%d" % len(apps), "e4lwm:low-water-mark=%s" % ("0" if low == 0 else "1..5" if low <= 5 else ">5"),
+         "e4lwm:calls=%s" % ("<10" if n_calls < 10 else "10..39" if n_calls < 40 else ">=40"), "e4lwm:stderr-calls=%s" % ("0" if n_ext_calls == 0 else "1..9" if n_ext_calls < 10 else ">=10")]
+        + (["e4lwm:offered>W"] if offered > W else [])
+        + (["e4lwm:peer-topped-up>=3-times"] if st_["grants"] >= 3 else []),
+    )
+    if res.outcome == "budget":
+        ctx.inconc("e4lwm:step-budget")
+        return
+    if res.outcome != "ok":
+        ctx.violation(
+            "transfer-completes",
+            "e4lwm-deadlock:sender-parked-with-peer-window-%s" % ("open" if peer_window() > 0 else "closed"),
+            case,
+            "no task can run: %d of %d calls returned, %d of %d offered bytes on the wire (%d extended-data messages); the peer granted %d + %d and has received %d, so its books show %d bytes of window left "
+            "(> low-water mark %d: it waits for the sender to use them); sender channel %r; waits %r"
+            % (st_["calls"], n_calls, st_["wire_bytes"], offered, st_["ext_msgs"], W, st_["granted"], st_["wire_bytes"], peer_window(), low, counters(chan), res.waits),
+        )
+        return
+    if st_["wire_bytes"] != st_["accepted"]:
+        ctx.violation("data-intact", "e4lwm:wire-bytes-differ-from-accepted", case, "calls accepted %d bytes, %d data bytes reached the wire" % (st_["accepted"], st_["wire_bytes"]))
+
+
+e4lwm_op = st.tuples(st.sampled_from(["send", "send_stderr", "sendall", "sendall_stderr", "send_stderr", "sendall_stderr"]), st.one_of(st.sampled_from([1, 1, 2, 10, 100, 4032, 5000]), st.integers(1, 300)))
+e4lwm_case = st.fixed_dictionaries(
+    {
+        "fam": st.just("e4lwm"),
+        "window": st.sampled_from([0, 1, 100, 1000, 4096, 32768]),
+        "maxpkt": st.sampled_from([4096, 32768]),
+        "low": st.sampled_from([0, 0, 1, 3, 4, 5, 64, 1000]),
+        "grant": st.sampled_from([64, 100, 1000, 4096, 32768]),
+        "apps": st.lists(st.one_of(st.lists(e4lwm_op, min_size=1, max_size=12), st.lists(e4lwm_op, min_size=1, max_size=12).map(lambda v: v), st.lists(e4lwm_op, min_size=30, max_size=90)), min_size=1, max_size=2),
+        "sched": S.schedule_strategy(max_pre=3, max_gap=40, max_forced=10),
+        "trace": st.sampled_from([False, False, True]),
+    }
+)
+
 e4_reads = st.lists(st.sampled_from([1000, 3276, 3277, 4096, 32768, 70000]), min_size=1, max_size=3)
 
 
-def _e4pair_build(W, P, mult, pattern, reads, ereads, combine, half, senders, sched, trace):
+def _e4pair_build(W, P, mult, pattern, reads, ereads, combine, half, senders, sched, trace, rekeys, link):
     total = int(min(W * mult, 200000))
-    return {"fam": "e4pair", "window": W, "maxpkt": P, "total": total, "pattern": pattern, "reads": reads, "ereads": ereads, "combine": combine, "half": half, "senders": senders, "sched": sched, "trace": trace}
+    return {"fam": "e4pair", "window": W, "maxpkt": P, "total": total, "pattern": pattern, "reads": reads, "ereads": ereads, "combine": combine, "half": half, "senders": senders, "sched": sched, "trace": trace, "rekeys": rekeys, "link": link}
+
+
+# re-keys during the transfer: (side that starts it: a = sending end, b = receiving end; fraction of the bytes carried before)
+REKEY_AT = [0.0, 0.1, 0.25, 0.5, 0.75, 0.9]
+e4_rekeys = st.one_of(st.just([]), st.lists(st.tuples(st.sampled_from(["a", "b", "b"]), st.sampled_from(REKEY_AT)), min_size=1, max_size=3))
 
 
 def _two_senders_parked_on_zero_window(log):
@@ -789,6 +1037,8 @@ e4pair_case = st.builds(
     st.sampled_from([1, 2]),
     S.schedule_strategy(max_pre=4, max_gap=60, max_forced=12),
     st.sampled_from([False, False, True]),
+    e4_rekeys,
+    st.sampled_from(["fast", "fast", "slow"]),
 )
 e4pup_case = st.fixed_dictionaries(
     {
@@ -813,13 +1063,13 @@ read_sizes = st.one_of(st.sampled_from([1, 7, 3276, 3277, 4096, 32768, 65536, 1 
 
 
 def pair_cases(cap):
-    def build(d, W, P, mult, pattern, reads, ereads, combine, half, senders):
+    def build(d, W, P, mult, pattern, reads, ereads, combine, half, senders, rekey):
         total = min(int(W * mult), cap)
         # keep the number of send / recv calls bounded (size-1 patterns on big totals)
         mean_c = sum(s for _, s in pattern) / len(pattern)
         mean_r = min(sum(reads) / len(reads), sum(ereads) / len(ereads))
         total = int(min(total, 3000 * mean_c, 6000 * mean_r))
-        return {"fam": "pair", "dir": d, "window": W, "maxpkt": P, "total": total, "pattern": pattern, "reads": reads, "ereads": ereads, "combine": combine, "half": half, "senders": senders}
+        return {"fam": "pair", "dir": d, "window": W, "maxpkt": P, "total": total, "pattern": pattern, "reads": reads, "ereads": ereads, "combine": combine, "half": half, "senders": senders, "rekey": rekey}
 
     return st.builds(
         build,
@@ -833,6 +1083,7 @@ def pair_cases(cap):
         st.sampled_from(["none", "none", "start", "mid"]),
         st.sampled_from(HALF),
         st.sampled_from([1, 2]),
+        st.sampled_from([None, None, None, "rcv:start", "rcv:mid", "snd:mid"]),
     )
 
 
@@ -856,15 +1107,19 @@ def run(ctx):
     state = {}
     cap = (1 << 20) if ctx.quick else (3 << 20)
     ctx.explore(pup_case, lambda c: run_pup(ctx, c), ctx.scale(60, 300), shrink=False)
-    ctx.explore(pair_cases(cap), lambda c: run_pair(ctx, c, state), ctx.scale(70, 400), shrink=False, seed_offset=1)
     # E4: deterministic (shrinking on); deadlock is decided exactly (no runnable task), no timeouts involved
-    ctx.explore(e4pup_case, lambda c: run_e4pup(ctx, c), ctx.scale(400, 2500), seed_offset=2)
+    ctx.explore(e4pup_case, lambda c: run_e4pup(ctx, c), ctx.scale(300, 2500), seed_offset=2)
     ctx.explore(e4pair_case, lambda c: run_e4pair(ctx, c), ctx.scale(400, 2000), seed_offset=3)
+    ctx.explore(e4lwm_case, lambda c: run_e4lwm(ctx, c), ctx.scale(200, 2000), seed_offset=4)
+    # real transports and threads last: a stall verdict there costs 3 x STALL seconds
+    ctx.explore(pair_cases(cap), lambda c: run_pair(ctx, c, state), ctx.scale(70, 400), shrink=False, seed_offset=1)
 
 
 def replay(ctx, case):
     case = dict(case)
-    if case["fam"] in ("e4pup", "e4pair"):
+    if case["fam"] == "e4lwm":
+        run_e4lwm(ctx, case)
+    elif case["fam"] in ("e4pup", "e4pair"):
         if "pattern" in case:
             case["pattern"] = [tuple(p) for p in case["pattern"]]
         if "msgs" in case:
